@@ -237,9 +237,16 @@ def check(ctx):
                 continue
             sets = [s for s in tail.body if isinstance(s, ast.Assign) and canon(s.targets[0]) == flag and isinstance(s.value, ast.Constant) and s.value.value is True]
             tn = cfg.head_of(tail)
-            # unconditional in the body: every path from the loop header (body entry) back to the header passes the tail test
+            # unconditional in the body: every path from the loop header (body entry) back to the header passes a budget test
+            # (the chain of stopping tests may be written as if / elif, then each copy counts) - or has already decided to stop
+            avoid_ = {tn.id}
+            for node in ast.walk(lp):
+                if isinstance(node, ast.If) and is_budget_stop(node.test) and cfg.head_of(node) is not None:
+                    avoid_.add(cfg.head_of(node).id)
+                if isinstance(node, ast.Assign) and len(node.targets) == 1 and canon(node.targets[0]) == flag and isinstance(node.value, ast.Constant) and node.value.value is True and cfg.node_of(node) is not None:
+                    avoid_.add(cfg.node_of(node).id)
             body_entry = cfg.succ(hdr.id, "T")
-            bypass = any(hdr.id in cfg.reachable(b, avoiding={tn.id}) for b in body_entry if b != tn.id)
+            bypass = any(hdr.id in cfg.reachable(b, avoiding=avoid_) for b in body_entry if b not in avoid_)
             conts = [n for n in ast.walk(lp) if isinstance(n, ast.Continue)]
             if not sets:
                 ctx.fail(fn, tail, "the budget test does not set the loop's exit flag", construct="budget test without exit flag")
